@@ -264,12 +264,18 @@ impl<'p> Evaluator<'_, 'p> {
         let object = self.expect_std_func_arg_object(object, "objectRemoveKey", 0)?;
         let key = self.expect_std_func_arg_string(key, "objectRemoveKey", 1)?;
 
-        if let Some(key) = self.program.str_interner.get_interned(&key) {
+        let key = self
+            .program
+            .str_interner
+            .get_interned(&key)
+            .filter(|&key| object.has_field(0, key));
+        if let Some(key) = key {
             let new_object = self.program.object_with_field_removed(&object, key);
             self.value_stack.push(ValueData::Object(new_object));
         } else {
-            // Key is not even interned, so it cannot be present in the object.
-            // Just return the original object.
+            // The object does not have the field (the key might not even be
+            // interned). Just return the original object, whether or not some
+            // other source happens to mention the key.
             self.value_stack.push(ValueData::Object(Gc::from(&object)));
         }
 
